@@ -1,6 +1,7 @@
 (* C11 — every persisted product reads back equal to what was written.
    Statements only; proofs are in Proofs/CodecP.v (models in Model/Codec.v). *)
-From Verif Require Import Prelude Codec CodecP PatchData PatchDataP.
+From Verif Require Import Prelude Codec CodecP PatchData PatchDataP PatchIds PatchIdsP.
+From Coq Require Import Permutation Sorting.Sorted.
 Open Scope Q_scope.
 
 (* HDF5 pair counts: to_hdf stores only the patch pairs with a non-zero count in some bin;
@@ -211,6 +212,34 @@ Example C11_patchdata_concrete :
   forallb (rec_ok i) recs = true /\ length (file_of i recs) = 49%nat /\ nth 0 (file_of i recs) 0%N = 7%N /\
   read_file (file_of i recs) = Some (i, recs) /\ read_file (firstn 48 (file_of i recs)) = None /\
   read_file (firstn 25 (file_of i recs)) = Some (i, firstn 1 recs).
+Proof. vm_compute. repeat split; reflexivity. Qed.
+(* ---------------- patch_ids.bin as bytes ---------------- *)
+(* the marker reads back the writers' keys (any order of creation), each once, ascending ... *)
+Theorem C11_patchids_roundtrip : forall ids : list nat,
+  ids <> [] -> forallb id_ok ids = true -> read_ids (ids_file ids) = Some (map Z.of_nat (sort_ids ids)).
+Proof. exact ids_roundtrip. Qed.
+Print Assumptions C11_patchids_roundtrip.
+Theorem C11_patchids_sorted_permutation : forall ids : list nat,
+  Permutation ids (sort_ids ids) /\ Sorted (fun x y => is_true (x <=? y)%nat) (sort_ids ids).
+Proof. exact ids_sorted_permutation. Qed.
+Print Assumptions C11_patchids_sorted_permutation.
+(* ... an id beyond int16 would not (the creation refuses such ids before: C09) ... *)
+Theorem C11_patchids_above_int16_refuted : exists id : nat, read_ids (ids_file [id]) <> Some [Z.of_nat id].
+Proof. exact id_above_int16_refuted. Qed.
+Print Assumptions C11_patchids_above_int16_refuted.
+(* ... and a marker cut after m bytes reads back as the first m/2 ids (np.fromfile ignores an odd byte); with fewer than
+   two bytes it is refused as empty *)
+Theorem C11_patchids_cut : forall (ids : list nat) (m : nat),
+  forallb id_ok ids = true -> read_pairs (firstn m (ids_file ids)) = firstn (Nat.div2 m) (map Z.of_nat (sort_ids ids)).
+Proof. exact ids_file_cut. Qed.
+Print Assumptions C11_patchids_cut.
+Theorem C11_patchids_cut_short_refused : forall (ids : list nat) (m : nat),
+  (m < 2)%nat -> read_ids (firstn m (ids_file ids)) = None.
+Proof. exact ids_file_cut_short. Qed.
+Print Assumptions C11_patchids_cut_short_refused.
+Example C11_patchids_concrete :
+  ids_file [300; 2; 11]%nat = [2; 0; 11; 0; 44; 1]%N /\ read_ids [2; 0; 11; 0; 44; 1]%N = Some [2; 11; 300]%Z /\
+  read_ids [2; 0; 11; 0; 44]%N = Some [2; 11]%Z /\ read_ids [255; 255]%N = Some [-1]%Z /\ read_ids [7]%N = None.
 Proof. vm_compute. repeat split; reflexivity. Qed.
 Example C11_concrete :
   let M := [[[0; 1; 0]; [0; 0; 0]; [2; 0; 0]]; [[0; 0; 0]; [0; 0; 0]; [5; 0; 7]]] in
